@@ -484,6 +484,9 @@ func c36BuildIndexUncached(w *c36World, variants []c36Doc) *c36Index {
 	for v, d := range variants {
 		content := "before " + d.content + "\n" +
 			d.content + fmt.Sprintf(" needle%04d ", v) + d.content + "\n" +
+			// the same match on a long line: the result page cuts the text before and after a match
+			// to 100 bytes each (LimitPre/LimitPost), the payload lies inside the part that is kept
+			strings.Repeat("x", 130) + d.content + fmt.Sprintf(" needle%04d ", v) + d.content + strings.Repeat("y", 130) + "\n" +
 			"after " + d.content + "\n" +
 			fmt.Sprintf("hay%04d ", v) + d.contentMatch + " stack\n" +
 			"tail\n"
